@@ -62,6 +62,7 @@ type Val struct {
 }
 
 type State struct {
+	lazyAlloc string    // non-empty: an allocating call happened; heaps first touched later get a fresh version framed below this bound
 	sym     *symHeaps // non-nil: heaps are bound variables (definition of a recursive spec function)
 	cells   map[*cellKey]string
 	heaps   map[string]string
@@ -73,7 +74,7 @@ type State struct {
 
 func (s *State) clone() *State {
 	n := &State{cells: make(map[*cellKey]string, len(s.cells)), heaps: make(map[string]string, len(s.heaps)),
-		globals: make(map[*ssa.Global]string, len(s.globals)), alloc: s.alloc, pc: s.pc, held: map[string]int{}}
+		globals: make(map[*ssa.Global]string, len(s.globals)), alloc: s.alloc, pc: s.pc, held: map[string]int{}, lazyAlloc: s.lazyAlloc, sym: s.sym}
 	for k, v := range s.cells {
 		n.cells[k] = v
 	}
@@ -112,6 +113,7 @@ type Unit struct {
 	qn           int
 	topParams    map[string]Val
 	frameExtra   []specLoc
+	vacN         int
 	lin          map[string]linForm
 	pendLin      *linForm
 	litLen       map[string]int
@@ -136,10 +138,19 @@ type Frame struct {
 	pure     bool // spec/inlined-in-spec context: no obligations
 	edgeGuard map[[2]int]string
 	loopLimit map[int]token.Pos
+	heapLocals map[string]Val // named locals that live on the heap (address taken)
 }
 
 func (u *Unit) errf(format string, a ...any) {
-	u.errs = append(u.errs, fmt.Sprintf(format, a...))
+	msg := fmt.Sprintf(format, a...)
+	for _, e := range u.errs {
+		if e == msg {
+			return
+		}
+	}
+	if len(u.errs) < 40 {
+		u.errs = append(u.errs, msg)
+	}
 }
 
 func (u *Unit) heapInit(name string, t types.Type) string {
@@ -211,6 +222,16 @@ func (u *Unit) heapGet(st *State, name string, t types.Type) string {
 		return v
 	}
 	v := u.heapInit(name, t)
+	if st.lazyAlloc != "" && !strings.HasPrefix(name, "M_") && !strings.HasPrefix(name, "VM_") {
+		// objects allocated by callees since function entry are not described by the initial heap
+		h1 := u.em.fresh(name, u.heapSortU(name, t))
+		u.em.assert(fmt.Sprintf("(forall ((r Int)) (! (=> (<= r %s) (= (select %s r) (select %s r))) :pattern ((select %s r))))", st.lazyAlloc, h1, v, h1))
+		if ax := u.heapAxiom(name, h1, t, st.alloc); ax != "" {
+			u.em.assert(ax)
+		}
+		st.heaps[name] = h1
+		return h1
+	}
 	return v
 }
 
@@ -655,9 +676,15 @@ func (u *Unit) runFunc(fn *ssa.Function, args []Val, st *State, parent *Frame, p
 					ls = con.Loops[lc.ord]
 				}
 				if ls != nil {
+					bpos := token.NoPos
+					for _, pi := range b.Instrs {
+						if _, dbg := pi.(*ssa.DebugRef); !dbg && pi.Pos().IsValid() {
+							bpos = pi.Pos()
+						}
+					}
 					for _, inv := range ls.Invariants {
 						t := u.specLoop(f, bs, inv.Expr, fn, s.Index)
-						u.oblige(f, bs, "inv-preserved", fmt.Sprintf("loop%d:%s", lc.ord, inv.label()), t, token.NoPos)
+						u.oblige(f, bs, "inv-preserved", fmt.Sprintf("loop%d:%s", lc.ord, inv.label()), t, bpos)
 					}
 					for _, hn := range lc.frameHeaps {
 						if g := u.frameGoal(hn, bs, u.entry, con); g != "" {
@@ -1159,6 +1186,12 @@ func (u *Unit) instr(f *Frame, st *State, ins ssa.Instruction) {
 		}
 		// heap object
 		r := u.newRef(st)
+		if x.Comment != "" {
+			if f.heapLocals == nil {
+				f.heapLocals = map[string]Val{}
+			}
+			f.heapLocals[x.Comment] = Val{T: r, Ty: x.Type()}
+		}
 		if arr, ok := et.Underlying().(*types.Array); ok {
 			n := u.em.elemHeapName(arr.Elem())
 			h := u.heapGet(st, n, arr.Elem())
